@@ -12,6 +12,7 @@ func (p *Prog) AllFuncs() []*Func {
 	var out []*Func
 	for _, f := range p.Files {
 		out = append(out, f.Funcs...)
+		out = append(out, f.Extern...)
 	}
 	return out
 }
@@ -54,8 +55,26 @@ func (p *Prog) Closure(name string) map[string]bool {
 	return out
 }
 
+// DropRaw removes the raw declarations (and their registry entries) of a file.
+func (p *Prog) DropRaw(file string) bool {
+	for _, f := range p.Files {
+		if f.Name == file && (len(f.Decls) > 0 || len(f.Extern) > 0) && len(f.Extern) > 0 {
+			f.Decls, f.RefDecls, f.Extern, f.Imports = nil, nil, nil, nil
+			return true
+		}
+	}
+	return false
+}
+
 // Remove deletes a function and everything that (transitively) references it.
 func (p *Prog) Remove(name string) {
+	for _, f := range p.Files {
+		for _, e := range f.Extern {
+			if e.Name == name {
+				p.DropRaw(f.Name)
+			}
+		}
+	}
 	gone := map[string]bool{name: true}
 	for changed := true; changed; {
 		changed = false
@@ -86,7 +105,7 @@ func (p *Prog) Remove(name string) {
 func (p *Prog) Subset(keep map[string]bool) *Prog {
 	q := &Prog{Pkg: p.Pkg, Import: p.Import, SeqImported: p.SeqImported}
 	for _, file := range p.Files {
-		nf := &File{Name: file.Name, Decls: file.Decls, RefDecls: file.RefDecls, UsesAPI: file.UsesAPI}
+		nf := &File{Name: file.Name, Decls: file.Decls, RefDecls: file.RefDecls, UsesAPI: file.UsesAPI, Extern: file.Extern, Imports: file.Imports}
 		for _, f := range file.Funcs {
 			if keep[f.Name] {
 				nf.Funcs = append(nf.Funcs, f)
@@ -95,4 +114,14 @@ func (p *Prog) Subset(keep map[string]bool) *Prog {
 		q.Files = append(q.Files, nf)
 	}
 	return q
+}
+
+// ExternOf returns the first registry entry defined by raw declarations of the file.
+func (p *Prog) ExternOf(file string) string {
+	for _, f := range p.Files {
+		if f.Name == file && len(f.Extern) > 0 {
+			return f.Extern[0].Name
+		}
+	}
+	return ""
 }
